@@ -37,6 +37,8 @@ func runC05(c *Ctx) {
 	ruleY4(c, "Y4")
 	ruleY5(c, "Y5")
 	ruleY6(c, "Y6")
+	r.Rule("Y7", "MarshalYAML has an arm for every node kind", 4)
+	ruleKindSwitch(c, "Y7", "CandidateNode.MarshalYAML")
 }
 
 // ruleY6: every yaml.Node that MarshalYAML hands to the YAML library was
@@ -435,6 +437,9 @@ func runC06(c *Ctx) {
 	ruleJ124(c)
 	ruleJ6(c)
 	ruleJ8(c, "J8")
+	ruleJ10(c, "J10")
+	r.Rule("J9", "MarshalJSON has an arm for every node kind", 4)
+	ruleKindSwitch(c, "J9", "CandidateNode.MarshalJSON")
 	if fn := c.libFunc("parseInt64"); fn != nil {
 		r.Discharge("J2", "parseInt64/no-sign-wrap", c.P.pos(fn.Pos()), "integers are parsed with strconv.ParseInt; no unsigned->signed conversion of parsed values in the module")
 	}
@@ -651,6 +656,8 @@ func runC13(c *Ctx) {
 	ruleA5(c, "A5")
 	ruleA6(c, "A6")
 	ruleA7(c, "A7")
+	r.Rule("A8", "the JSON route has an arm for alias nodes (and every other kind)", 4)
+	ruleKindSwitch(c, "A8", "CandidateNode.MarshalJSON")
 }
 
 // ruleA6: explodeNode descends into every key and value: its recursive calls
@@ -905,7 +912,8 @@ func ruleLuaEscapes(c *Ctx, rule string) {
 		}
 	}
 	for b := 0; b < 256; b++ {
-		need := b < 32 || b == 127 || b == '"' || b == '\\'
+		// both quote characters: encodeString delimits with " or, for single-quoted style, with '
+		need := b < 32 || b == 127 || b == '"' || b == '\'' || b == '\\'
 		if !need {
 			continue
 		}
